@@ -45,7 +45,7 @@ func modeOf(s string) engine.ReplaceMode {
 	return engine.CONFIRM
 }
 
-// opFiles: fields = srchex, mode, fsbefore (name=xhex,...) ; the searched file is always f.txt
+// opFiles: fields = srchex, mode, fsbefore (name=xhex,...) [, searched files a,b,...] ; default searched file f.txt
 func opFiles(fields []string) string {
 	src, mode, fsb := unhx(fields[0]), fields[1], fields[2]
 	v, class := safeCompile(src)
@@ -68,7 +68,11 @@ func opFiles(fields []string) string {
 	cwd, _ := os.Getwd()
 	os.Chdir(dir)
 	defer os.Chdir(cwd)
-	res := withBudget(func() string { return canonMatches(v.RunFiles([]string{"f.txt"}, modeOf(mode), false)) })
+	searched := []string{"f.txt"}
+	if len(fields) > 3 && fields[3] != "" {
+		searched = strings.Split(fields[3], ",")
+	}
+	res := withBudgetN(func() string { return canonMatches(v.RunFiles(searched, modeOf(mode), false)) }, len(searched))
 	return "AST " + v.VerifAst() + "\tRES " + res + "\tFS " + snapshotDir(dir)
 }
 
@@ -84,7 +88,11 @@ func init() {
 		if ast == "" {
 			return "", false
 		}
-		return c.ID + "\tfiles\t" + ast + "\t" + c.Fields[1] + "\tf.txt\t" + c.Fields[2], true
+		searched := "f.txt"
+		if len(c.Fields) > 3 && c.Fields[3] != "" {
+			searched = c.Fields[3]
+		}
+		return c.ID + "\tfiles\t" + ast + "\t" + c.Fields[1] + "\t" + searched + "\t" + c.Fields[2], true
 	}
 	propGens["C06"] = func(r *rand.Rand, tier string, st *Stats) []Case {
 		cases := []Case{}
@@ -110,9 +118,30 @@ func init() {
 				fs = append(fs, "f.txt.vored="+hx("STALE STALE STALE STALE STALE STALE STALE STALE"))
 				st.Features["stale-vored"]++
 			}
+			// which paths are searched: usually f.txt; sometimes a file that is itself named *.vored (a second
+			// pass over earlier output), the same path twice, or two files one of which is the other's .vored
+			searched := ""
+			switch r.Intn(8) {
+			case 0:
+				fs = append(fs, "g.vored="+hx(text))
+				searched = "g.vored"
+				st.Features["searched-file-named-vored"]++
+			case 1:
+				searched = "f.txt,f.txt"
+				st.Features["searched-path-twice"]++
+			case 2:
+				if !strings.Contains(strings.Join(fs, ","), "f.txt.vored=") {
+					fs = append(fs, "f.txt.vored="+hx(text+"a"))
+				}
+				searched = "f.txt,f.txt.vored"
+				st.Features["searched-file-and-its-vored"]++
+			case 3:
+				searched = "f.txt,other.txt"
+				st.Features["searched-two-files"]++
+			}
 			for _, mode := range []string{"NEW", "NOTHING", "OVERWRITE"} {
 				cases = append(cases, Case{ID: fmt.Sprintf("f%d.%s", i, mode), Op: "files",
-					Fields: []string{hx(p.Src), mode, strings.Join(fs, ",")}, Meta: map[string]string{}})
+					Fields: []string{hx(p.Src), mode, strings.Join(fs, ","), searched}, Meta: map[string]string{}})
 			}
 		}
 		// large files: unmatched stretches longer than the 4096-byte read window, sizes around its multiples
@@ -131,6 +160,9 @@ func init() {
 				pos := r.Intn(size - 2)
 				if r.Intn(3) == 0 {
 					pos = []int{0, 4094, 4095, 4096, size - 2}[r.Intn(5)]
+				}
+				if pos > size-2 {
+					pos = size - 2
 				}
 				b[pos], b[pos+1] = 'Z', 'Z'
 			}
